@@ -208,7 +208,58 @@ def buildJudge (f : List String) (out : String) : String :=
       | _ => "bad:unparsable:case"
     | _ => "bad:unparsable:" ++ out
 
+/- c06.connect  aesni  sites  cfgs  namehex  pathhex
+     sites as in c01.route (addrHost = TLS.Hostname); cfgs as in c06.select (hostname field unused: taken from the site)
+     out = <select out: err:n|plain|nil|any|cfg TAB idx> || <served out>    (two parts joined by TAB "||" TAB) -/
+structure ConnCase where
+  aesni : Bool
+  sites : List Casket.VHost.Site
+  cfgs : List Cfg
+  name : Bytes
+  path : Bytes
+
+def parseConn : List String → Option ConnCase
+  | [a, ss, cs, n, p] => do
+    let sites ← Driver.C01.parseSites ss
+    let cfgs ← parseCfgs cs
+    if sites.length != cfgs.length then none
+    else
+      let cfgs := (sites.zip cfgs).map fun (s, c) => { c with hostname := s.addrHost }
+      pure { aesni := a == "1", sites := sites, cfgs := cfgs, name := ← bytes n, path := ← bytes p }
+  | _ => none
+
+def showSel : Obs → String
+  | .cfg i _ => s!"cfg\t{i}"
+  | o => showObs o
+
+def connModel (f : List String) : String :=
+  match parseConn f with
+  | none => "bad-case"
+  | some c =>
+    let o := connect c.aesni c.sites c.cfgs c.name c.path
+    showSel o.1 ++ "\t||\t" ++ showServed o.2
+
+def splitBars : List String → List String → List String × List String
+  | [], acc => (acc.reverse, [])
+  | "||" :: rest, acc => (acc.reverse, rest)
+  | x :: rest, acc => splitBars rest (x :: acc)
+
+def dummyBuilt : Built := { ciphers := [], curves := [], preferServer := false, minV := 0, maxV := 0, clientAuth := 0, nextProtos := [] }
+
+def connJudge (f : List String) (out : String) : String :=
+  match parseConn f with
+  | none => "bad:unparsable:case"
+  | some c =>
+    let (a, b) := splitBars (out.splitOn "\t") []
+    let sel : Option Obs := match a with
+      | ["cfg", i] => i.toNat?.map (fun i => .cfg i dummyBuilt)
+      | _ => parseObs ("\t".intercalate a)
+    match sel, parseServed ("\t".intercalate b) with
+    | some s, some v => Casket.TLSSpec.crossVerdict c.cfgs (s, v)
+    | _, _ => "bad:unparsable:" ++ out
+
 def streams : List Driver.Stream := [
+  { name := "c06.connect", model := connModel, judge := connJudge },
   { name := "c06.build", model := buildModel, judge := buildJudge },
   { name := "c06.handshake", model := hsModel, judge := hsJudge },
   { name := "c06.snihost", model := sniModel, judge := sniJudge },
